@@ -1128,6 +1128,10 @@ class Interp:
                 res = self.from_cond(c_not(self.to_cond(c)))
             else:
                 res = mk_bin("xor", a, c)
+        elif op == "lshr" and ins.type.kind == "int" and V(ins.ops[1]).const() == ins.type.bits - 1 and \
+                (V(ins.ops[0]).single_atom() or ("",))[0] == "purecall":
+            # sign bit of a signed call result (memcmp):  x >>u (N-1)  ==  [x <s 0]
+            res = self.from_cond(c_cmp("slt", V(ins.ops[0]), ZERO))
         elif op in ("udiv", "sdiv", "urem", "srem", "shl", "lshr", "ashr", "or", "xor"):
             res = mk_bin(op, V(ins.ops[0]), V(ins.ops[1]))
         elif op in ("bitcast", "ptrtoint", "inttoptr", "freeze"):
@@ -1326,8 +1330,9 @@ class Interp:
         elif kind == "TERMINATE":
             e = self.emit("TERMINATE", (), None, ins)
         elif kind == "BULKCMP":
-            self.nfresh += 1
-            res = atom(("fresh", self.nfresh, "memcmp"))
+            # pure function of its operands (the compared memory is not written by const operations): a
+            # deterministic atom makes results comparable across witnesses
+            res = atom(("purecall", "memcmp", args[0], args[1], args[2]))
             e = self.emit("MEMCMP", tuple(args), res, ins, name=name)
         elif kind in ("MEMCPY", "MEMMOVE"):
             e = self.emit(kind, tuple(args[:3]), None, ins)
@@ -1338,7 +1343,10 @@ class Interp:
             self.nfresh += 1
             rt = ins.type
             if rt is not None and rt.kind != "void":
-                res = atom(("fresh", self.nfresh, kind.lower()))
+                if kind in ("EQ", "LT"):
+                    res = atom(("purecall", kind, args[0], args[1]))
+                else:
+                    res = atom(("fresh", self.nfresh, kind.lower()))
             e = self.emit(kind, tuple(a for a in args if a is not None), res, ins, name=name,
                           may_throw=not ins.attrs.get("nounwind") and not cls.get("nothrow", False),
                           unwind=ins.attrs.get("unwind"))
